@@ -245,24 +245,24 @@ func (r *Report) Finish(verifDir string, findings []Finding, quiet bool) int {
 	}
 	sort.Strings(funcs)
 	cov := map[string]any{
-		"explanation":         r.Explanation,
-		"obligations":         len(r.Obls),
-		"discharged":          discharged,
-		"evaluations":         len(r.Obls),
-		"distinct_nontrivial": len(nontrivial),
-		"rule":                "one obligation per (rule, construct) instance enumerated from the SSA of /repo's current source; non-trivial = its discharge needed an argument (a guard found, a path cut, an origin traced, a table entry) rather than 'no such construct here'; distinct = distinct rule+construct keys",
-		"samples":             samples,
-		"obligation_index":    index,
-		"exhaustive":          true,
-		"rules":               ruleInfo,
-		"functions_analysed":  funcs,
-		"n_functions":         len(funcs),
-		"known_findings":      len(knownHits),
-		"packages_loaded":     len(r.P.Pkgs),
-		"module_functions":    len(r.P.ModFuncs),
+		"explanation":            r.Explanation,
+		"obligations":            len(r.Obls),
+		"discharged":             discharged,
+		"evaluations":            len(r.Obls),
+		"distinct_nontrivial":    len(nontrivial),
+		"rule":                   "one obligation per (rule, construct) instance enumerated from the SSA of /repo's current source; non-trivial = its discharge needed an argument (a guard found, a path cut, an origin traced, a table entry) rather than 'no such construct here'; distinct = distinct rule+construct keys",
+		"samples":                samples,
+		"obligation_index":       index,
+		"exhaustive":             true,
+		"rules":                  ruleInfo,
+		"functions_analysed":     funcs,
+		"n_functions":            len(funcs),
+		"known_findings":         len(knownHits),
+		"packages_loaded":        len(r.P.Pkgs),
+		"module_functions":       len(r.P.ModFuncs),
 		"functions_that_recover": r.P.Recovering,
-		"checker_cmd":         fmt.Sprintf("./check %s %s", r.Property, r.Tier),
-		"trusted_base":        r.Trusted,
+		"checker_cmd":            fmt.Sprintf("./check %s %s", r.Property, r.Tier),
+		"trusted_base":           r.Trusted,
 	}
 	for k, v := range r.Extra {
 		cov[k] = v
